@@ -83,6 +83,11 @@ pub struct NetScenario {
     /// at an exact tie the stop is issued before (true) or after (false) the connects of that instant
     #[serde(default)]
     pub stop_before: bool,
+    /// how often the driver lets the ready tasks run (in the runtime's FIFO order) between the connects of the stop's
+    /// instant and the stop call itself: with 1 the listener accepts what is queued, but the tasks it spawned
+    /// have not run yet when the stop comes
+    #[serde(default)]
+    pub yields_before_stop: u8,
     pub cap_ns: u64,
 }
 
@@ -92,6 +97,9 @@ pub struct NetClientOutcome {
     pub connected_ns: Option<u64>,
     pub refused: bool,
     pub accepted_ns: Option<u64>,
+    /// the listener had taken this connection from the accept queue when the stop was called
+    #[serde(default)]
+    pub accepted_before_stop_call: bool,
     pub closed_ns: Option<u64>,
     /// when the server let go of its end altogether (the socket object was dropped: both directions closed)
     #[serde(default)]
@@ -321,6 +329,7 @@ async fn run_net_async(sc: &NetScenario) -> NetOutcome {
     }
     events.sort();
     let mut client_tasks = vec![];
+    let mut pre_stop_accepts: Vec<(tokio::time::Instant, SocketAddr)> = vec![];
     let mut stop_ns = None;
     let t0 = world.lock().unwrap().t0;
     for (t, _, idx) in events {
@@ -329,15 +338,26 @@ async fn run_net_async(sc: &NetScenario) -> NetOutcome {
         }
         tokio::time::sleep_until(t0 + Duration::from_nanos(t)).await;
         if idx == usize::MAX {
-            let now = world.lock().unwrap().now_ns();
-            world.lock().unwrap().ev("driver", "stop", json!({}));
-            stop_ns = Some(now);
-            if sc.cfg.use_start {
-                // the application's own stop signal: the (simulated) interrupt
-                passage_protocol::verif::rt::signal::raise();
-            } else {
-                stop.cancel();
+            // 1: the stop is called by a task queued behind whatever the connects of this instant woke (the
+            // listener accepts, but the connection tasks it spawns on the runtime have not been polled yet);
+            // 2 and more: everything that is ready gets to run that many rounds first
+            for _ in 1..sc.yields_before_stop {
+                tokio::task::yield_now().await;
             }
+            let (w3, stop3, use_start) = (world.clone(), stop.clone(), sc.cfg.use_start);
+            let call = move || {
+                let log = vnet::take_accept_log();
+                w3.lock().unwrap().ev("driver", "stop", json!({}));
+                if use_start {
+                    // the application's own stop signal: the (simulated) interrupt
+                    passage_protocol::verif::rt::signal::raise();
+                } else {
+                    stop3.cancel();
+                }
+                log
+            };
+            pre_stop_accepts = if sc.yields_before_stop >= 1 { tokio::task::spawn_local(async move { call() }).await.unwrap_or_default() } else { call() };
+            stop_ns = Some(world.lock().unwrap().now_ns());
             continue;
         }
         let c = sc.clients[idx].clone();
@@ -379,7 +399,9 @@ async fn run_net_async(sc: &NetScenario) -> NetOutcome {
     }
     listener_task.abort();
     let _ = listener_task.await;
-    let accept_log = vnet::take_accept_log();
+    let before_stop: Vec<SocketAddr> = pre_stop_accepts.iter().map(|(_, p)| *p).collect();
+    let mut accept_log = pre_stop_accepts;
+    accept_log.extend(vnet::take_accept_log());
     let w = world.lock().unwrap();
     let t0 = w.t0;
     let mut clients = vec![];
@@ -408,6 +430,7 @@ async fn run_net_async(sc: &NetScenario) -> NetOutcome {
             connected_ns: s.connected_ns,
             refused: s.refused,
             accepted_ns,
+            accepted_before_stop_call: before_stop.contains(&peer),
             closed_ns,
             released_ns,
             rx_total,
